@@ -153,12 +153,12 @@ theorem cvm_runKind (bond : Denom) : ∀ (depth : Nat) (kind : String) (l l' : L
   | zero =>
     intro kind l l' s s' caller callee v d0 z t hi h
     unfold Cvm.runKind at h
-    split at h <;> first | (injection h with h; injection h with h1 _; subst h1; first | exact hi | exact Ledger.inv_move _ _ _ _ hi) | (cases h; done) | skip
+    split at h <;> (first | (injection h with h; injection h with h1 _; subst h1; first | exact hi | exact Ledger.inv_move _ _ _ _ hi) | (cases h; done) | (split at h <;> (injection h with h; injection h with h1 _; subst h1; first | exact hi | exact Ledger.inv_move _ _ _ _ hi); done) | skip)
     all_goals (simp only at h; cases h)
   | succ n ih =>
     intro kind l l' s s' caller callee v d0 z t hi h
     unfold Cvm.runKind at h
-    split at h <;> first | (injection h with h; injection h with h1 _; subst h1; first | exact hi | exact Ledger.inv_move _ _ _ _ hi) | (cases h; done) | skip
+    split at h <;> (first | (injection h with h; injection h with h1 _; subst h1; first | exact hi | exact Ledger.inv_move _ _ _ _ hi) | (cases h; done) | (split at h <;> (injection h with h; injection h with h1 _; subst h1; first | exact hi | exact Ledger.inv_move _ _ _ _ hi); done) | skip)
     · -- forward
       simp only at h
       split at h
